@@ -16,9 +16,16 @@ function:
   they run a one-dimensional optimiser whose constraint policy is their own: the policy is carried
   through `init` / `step` / `optimize` (`KeepsPolicy`);
 * the simplex evaluates the function at the unconstrained list `pSum` holding the midpoints of two
-  vertices: only the *values* of a list matter for the feasibility of the point (`Within`), and an
-  interval constraint accepts the midpoint of two values it accepts.
+  vertices: only the *values* of a list matter for the feasibility of the point (`Within`, `SafeF`), and an
+  interval constraint accepts the midpoint of two values it accepts (`mids_within`); that the list of sums
+  *takes* the midpoints needs parameters of precision 0 (`Prec0`, `Vert`, `SimplexJ`) — `SimplexCex` is a
+  run in exact rational arithmetic where, with a positive precision, it does not;
+* the `MetaOptimizer` drives a `SimpleMultiDimensions` and a `BfgsMultiDimensions` on sub-lists of its own
+  list, under its own policy (`MetaJ`).
 `InvStep` is the template (`init` / `step` / `loop` / `optimize`) for an invariant of the whole state.
+Everything is generic in the function interface `I` (`Safe`, `SafeSet`, `SafeRestore`, `SafeF` are what is
+asked of it); `objective_safeL`, `objective_safeSetL`, `objective_restore`, `objective_safeW` instantiate them
+for the objective of the harness.
 -/
 set_option linter.unusedSectionVars false
 namespace Bpp.Optim
@@ -415,6 +422,7 @@ theorem newton_safeAlgo (hs : Safe I Q T) (hr : SafeRestore I Q) : SafeAlgo (new
 
 /-! ### the policy is carried through the one-dimensional optimisers -/
 
+/-- the evaluation step leaves the policy alone -/
 theorem evalOwn_policy {τ : Type} (s s' : St F τ ℝ) (x v : ℝ) (h : evalOwn I s x = .ok (s', v)) :
     s'.core.policy = s.core.policy := by
   unfold evalOwn at h
@@ -525,6 +533,8 @@ one-dimensional optimiser runs under a policy that keeps constraints (when there
 def SimpleJ (Q : F → Prop) (cons : Spec.Cons ℝ) (s : St F (Simple ℝ) ℝ) : Prop :=
   Q s.fn ∧ Tied cons s.core.params ∧ (s.ext.nbParams = 0 ∨ s.ext.icore.policy ≠ .ignore)
 
+/-- one coordinate: Brent's method on the sub-list of that coordinate (tied under a policy that keeps
+constraints), then the function's point copied back -/
 theorem simpleCoord_inv {cons : Spec.Cons ℝ} (hs : Safe I Q (Tied cons)) (fuel : Nat) (s : St F (Simple ℝ) ℝ) (i : Nat)
     (hQ : Q s.fn) (hT : Tied cons s.core.params) (hp : s.ext.icore.policy ≠ .ignore) :
     ROk Q (fun r => Q r.1.fn ∧ Tied cons r.1.core.params ∧ r.1.ext.icore.policy ≠ .ignore ∧ r.1.ext.nbParams = s.ext.nbParams)
@@ -686,6 +696,7 @@ Newton optimiser runs under a policy that keeps constraints (when there is a par
 def SNewtonJ (Q : F → Prop) (cons : Spec.Cons ℝ) (s : St F (SNewton ℝ) ℝ) : Prop :=
   Q s.fn ∧ Tied cons s.core.params ∧ (s.ext.nbParams = 0 ∨ s.ext.icore.policy ≠ .ignore)
 
+/-- one coordinate: Newton's method on the sub-list of that coordinate, then the function's point copied back -/
 theorem snewtonCoord_inv {cons : Spec.Cons ℝ} (hs : Safe I Q (Tied cons)) (hr : SafeRestore I Q) (fuel : Nat) (s : St F (SNewton ℝ) ℝ) (i : Nat)
     (hQ : Q s.fn) (hT : Tied cons s.core.params) (hp : s.ext.icore.policy ≠ .ignore) :
     ROk Q (fun r => Q r.1.fn ∧ Tied cons r.1.core.params ∧ r.1.ext.icore.policy ≠ .ignore ∧ r.1.ext.nbParams = s.ext.nbParams)
@@ -834,5 +845,647 @@ theorem snewton_keepsPolicy (fuel : Nat) : KeepsPolicy (snewtonAlgo I fuel) :=
     stop := fun s => fscStop_policy s }
 
 end
+
+/-! ### DownhillSimplexMethod -/
+
+/-- the `f` half of `Safe`, for lists that `setValue` need not keep in `T` -/
+structure SafeF (I : FunI F ℝ) (Q : F → Prop) (T : PList ℝ → Prop) : Prop where
+  f_ok : ∀ fn pl fn' v, Q fn → T pl → I.f fn pl = .ok (fn', v) → Q fn'
+  f_err : ∀ fn pl e fn', Q fn → T pl → I.f fn pl = .error (e, fn') → Q fn'
+
+theorem objective_safeW (obj : List ℝ → ℝ) (D : Deriv ℝ) (cap : Option Nat) (cons : Spec.Cons ℝ) (L : Nat) :
+    SafeF (Fn.iface obj D cap) (FeasL cons L) (Within cons) := by
+  refine ⟨?_, ?_⟩
+  · intro fn pl fn' v hQ hT h
+    have := objective_f_within obj D cap cons L fn pl hQ hT
+    rw [h] at this; exact this
+  · intro fn pl e fn' hQ hT h
+    have := objective_f_within obj D cap cons L fn pl hQ hT
+    rw [h] at this; exact this
+
+theorem setValue_precision {p p' : Param ℝ} {x : ℝ} (h : p.setValue x = .ok p') : p'.precision = p.precision := by
+  unfold Param.setValue at h
+  split at h
+  · exact (Param.sva_fields h).2.1
+  · exact (Param.svb_fields h).2.1
+
+/-- every parameter of the list has precision 0 -/
+def Prec0 (pl : PList ℝ) : Prop := ∀ q ∈ pl, q.p.precision = 0
+
+theorem setAll_prec0 : ∀ (pl : PList ℝ) (vs : List ℝ) (pl' : PList ℝ), Prec0 pl → setAll pl vs = .ok pl' → Prec0 pl' := by
+  intro pl
+  induction pl with
+  | nil => intro vs pl' _ h; rw [setAll] at h; simp only [Except.ok.injEq] at h; subst h; exact fun _ hq => nomatch hq
+  | cons q rest ih =>
+    intro vs pl' hT h
+    cases vs with
+    | nil => rw [setAll] at h; simp only [Except.ok.injEq] at h; subst h; exact hT
+    | cons v vs =>
+      rw [setAll] at h
+      split at h
+      · cases h
+      · rename_i p' hs
+        split at h
+        · cases h
+        · rename_i r' hr'
+          simp only [Except.ok.injEq] at h
+          subst h
+          intro q' hq'
+          rcases List.mem_cons.1 hq' with rfl | hm
+          · show p'.precision = 0
+            rw [setValue_precision hs]; exact hT q (List.mem_cons_self ..)
+          · exact ih vs r' (fun q'' hq'' => hT q'' (List.mem_cons_of_mem _ hq'')) hr' q' hm
+
+/-- a vertex (or the optimiser's list): tied to the constraints, precision 0, the names `ns` -/
+def Vert (cons : Spec.Cons ℝ) (ns : List Nat) (v : PList ℝ) : Prop := Tied cons v ∧ Prec0 v ∧ names v = ns
+
+theorem setAll_vert {cons : Spec.Cons ℝ} {ns : List Nat} {pl pl' : PList ℝ} {vs : List ℝ} (hv : Vert cons ns pl)
+    (h : setAll pl vs = .ok pl') : Vert cons ns pl' :=
+  ⟨setAll_tied cons pl vs pl' hv.1 h, setAll_prec0 pl vs pl' hv.2.1 h, by rw [setAll_names pl vs pl' h]; exact hv.2.2⟩
+
+/-- `getPSum`: the copy that holds the sums carries no constraint -/
+theorem getPSum_free (params : PList ℝ) (sx : List (PList ℝ)) (ps : PList ℝ) (hp : Prec0 params)
+    (h : getPSum params sx = .ok ps) : Free ps ∧ names ps = names params := by
+  unfold getPSum at h
+  simp only [] at h
+  have hfree : Free (params.map (fun q => ({ q with p := q.p.removeConstraint.1 } : NP ℝ))) := by
+    intro q hq
+    obtain ⟨q0, hq0, rfl⟩ := List.mem_map.1 hq
+    exact ⟨hp q0 hq0, rfl⟩
+  obtain ⟨h1, h2, _⟩ := setAll_free _ _ _ hfree h
+  refine ⟨h1, ?_⟩
+  rw [h2]
+  unfold names; rw [List.map_map]; rfl
+
+theorem Spec.accepts_mid (c : Option (Interval ℝ)) (a b : ℝ) (ha : Spec.accepts c a = true) (hb : Spec.accepts c b = true) :
+    Spec.accepts c (Scalar.ofRat 1 2 * (a + b)) = true := by
+  cases c with
+  | none => rfl
+  | some c =>
+    have := Interval.isCorrect_mid c a b ha hb
+    simp only [ScalarReal.ofRat_eq]
+    norm_num at this ⊢
+    exact this
+
+/-- a list named like two tied lists and holding the midpoints of their values: its values are accepted -/
+theorem mids_within (cons : Spec.Cons ℝ) : ∀ (ps vi lo : PList ℝ), names ps = names vi → names lo = names vi →
+    Tied cons vi → Tied cons lo →
+    values ps = ((values vi).zip (values lo)).map (fun ab => Scalar.ofRat 1 2 * (ab.1 + ab.2)) → Within cons ps := by
+  intro ps
+  induction ps with
+  | nil => intro vi lo _ _ _ _ _ q hq; cases hq
+  | cons q r ih =>
+    intro vi lo h1 h2 hTv hTl hv
+    cases vi with
+    | nil => cases h1
+    | cons v vr =>
+      cases lo with
+      | nil => cases h2
+      | cons l lr =>
+        simp only [names_cons, List.cons.injEq] at h1 h2
+        simp only [values, List.map_cons, List.zip_cons_cons, List.cons.injEq] at hv
+        intro q' hq' c hc
+        rcases List.mem_cons.1 hq' with rfl | hm
+        · rw [hv.1]
+          have hvv := hTv.head
+          have hll := hTl.head
+          apply Spec.accepts_mid
+          · rw [← hvv.2 c (by rw [← h1.1]; exact hc), ← accepts_eq]; exact hvv.1
+          · rw [← hll.2 c (by rw [h2.1, ← h1.1]; exact hc), ← accepts_eq]; exact hll.1
+        · exact ih vr lr h1.2 h2.2 hTv.tail hTl.tail hv.2 q' hm c hc
+
+
+/-- the invariant of the method: the function is fine; the optimiser's list and every vertex are tied,
+of precision 0 and named `ns`; the sums carry the names and no constraint -/
+structure SimplexJ (Q : F → Prop) (cons : Spec.Cons ℝ) (ns : List Nat) (s : St F (Simplex ℝ) ℝ) : Prop where
+  fn : Q s.fn
+  params : Vert cons ns s.core.params
+  verts : ∀ v ∈ s.ext.simplex, Vert cons ns v
+  psum : Free s.ext.pSum ∧ names s.ext.pSum = ns
+
+section
+variable {I : FunI F ℝ} {Q : F → Prop} {cons : Spec.Cons ℝ} {ns : List Nat}
+
+/-- a trial point is the optimiser's list moved by `setValue`; the sums stay unconstrained -/
+theorem tryExtrapolation_inv (hs : Safe I Q (Tied cons)) (s : St F (Simplex ℝ) ℝ) (fac : ℝ) (hJ : SimplexJ Q cons ns s) :
+    ROk Q (fun r => SimplexJ Q cons ns r.1) (tryExtrapolation I s fac) := by
+  unfold tryExtrapolation
+  dsimp only
+  split
+  · rename_i hiv yHi hsx hy
+    have hvH : Vert cons ns hiv := hJ.verts hiv (List.mem_of_getElem? hsx)
+    split
+    · exact hJ.fn
+    · rename_i pTry hset
+      have hvT : Vert cons ns pTry := setAll_vert hJ.params hset
+      split
+      · rename_i e he; obtain ⟨e1, fn1⟩ := e; exact hs.f_err _ _ _ _ hJ.fn hvT.1 he
+      · rename_i fn1 yT he
+        have hQ1 := hs.f_ok _ _ _ _ hJ.fn hvT.1 he
+        try dsimp only
+        split
+        · split
+          · exact hQ1
+          · rename_i ps hps
+            obtain ⟨f1, f2, _⟩ := setAll_free _ _ _ hJ.psum.1 hps
+            split
+            · exact hQ1
+            · rename_i hi' hhi
+              refine ⟨hQ1, hJ.params, ?_, ⟨f1, by rw [f2]; exact hJ.psum.2⟩⟩
+              intro v hv
+              rcases mem_set_cases hv with rfl | hm
+              · exact setAll_vert hvH hhi
+              · exact hJ.verts v hm
+        · exact ⟨hQ1, hJ.params, hJ.verts, hJ.psum⟩
+  · exact hJ.fn
+
+theorem tryExtrapolation_inv' (hs : Safe I Q (Tied cons)) {s : St F (Simplex ℝ) ℝ} {fac : ℝ}
+    {r : Except (Exc × F) (St F (Simplex ℝ) ℝ × ℝ)} (he : tryExtrapolation I s fac = r) (hJ : SimplexJ Q cons ns s) :
+    ROk Q (fun r => SimplexJ Q cons ns r.1) r :=
+  he ▸ tryExtrapolation_inv hs s fac hJ
+
+/-- the contraction: the function is evaluated at the *unconstrained* list of sums, which then holds the
+midpoints of two vertices — values the constraints accept -/
+theorem shrinkAll_inv (hw : SafeF I Q (Within cons)) :
+    ∀ (l : List Nat) (s : St F (Simplex ℝ) ℝ), SimplexJ Q cons ns s → ROk Q (SimplexJ Q cons ns) (shrinkAll I l s) := by
+  intro l
+  induction l with
+  | nil => intro s hJ; rw [shrinkAll]; exact hJ
+  | cons i r ih =>
+    intro s hJ
+    rw [shrinkAll]
+    dsimp only
+    split
+    · exact ih s hJ
+    · split
+      · rename_i vi lo hvi hlo
+        have hvV : Vert cons ns vi := hJ.verts vi (List.mem_of_getElem? hvi)
+        have hvL : Vert cons ns lo := hJ.verts lo (List.mem_of_getElem? hlo)
+        split
+        · exact hJ.fn
+        · rename_i ps hps
+          obtain ⟨f1, f2, f3⟩ := setAll_free _ _ _ hJ.psum.1 hps
+          have hnps : names ps = ns := by rw [f2]; exact hJ.psum.2
+          have hlen : (((values vi).zip (values lo)).map (fun ab => Scalar.ofRat 1 2 * (ab.1 + ab.2))).length
+              = s.ext.pSum.length := by
+            rw [List.length_map, List.length_zip, values_length, values_length, ← names_length vi, ← names_length lo,
+              hvV.2.2, hvL.2.2, min_self, ← names_length s.ext.pSum, hJ.psum.2]
+          have hW : Within cons ps :=
+            mids_within cons ps vi lo (by rw [hnps, hvV.2.2]) (by rw [hvL.2.2, hvV.2.2]) hvV.1 hvL.1 (f3 hlen)
+          split
+          · exact hJ.fn
+          · rename_i vi' hvi'
+            split
+            · rename_i e he; obtain ⟨e1, fn1⟩ := e; exact hw.f_err _ _ _ _ hJ.fn hW he
+            · rename_i fn1 yi he
+              apply ih
+              refine ⟨hw.f_ok _ _ _ _ hJ.fn hW he, hJ.params, ?_, ⟨f1, hnps⟩⟩
+              intro v hv
+              rcases mem_set_cases hv with rfl | hm
+              · exact setAll_vert hvV hvi'
+              · exact hJ.verts v hm
+      · exact hJ.fn
+
+theorem simplexReport_inv (s : St F (Simplex ℝ) ℝ) (iL : Nat) (hJ : SimplexJ Q cons ns s) :
+    SimplexJ Q cons ns (simplexReport s iL).1 := by
+  unfold simplexReport
+  split
+  · rename_i best hb
+    exact ⟨hJ.fn, hJ.verts best (List.mem_of_getElem? hb), hJ.verts, hJ.psum⟩
+  · exact hJ
+
+theorem simplexDoStep_inv (hs : Safe I Q (Tied cons)) (hw : SafeF I Q (Within cons)) (s : St F (Simplex ℝ) ℝ)
+    (hJ : SimplexJ Q cons ns s) : ROk Q (fun r => SimplexJ Q cons ns r.1) (simplexDoStep I s) := by
+  unfold simplexDoStep
+  dsimp only
+  split
+  · rename_i y0 y1 v0 hy0 hy1 hv0
+    generalize rank s.ext.y y0 y1 = rk
+    obtain ⟨iH, iN, iL⟩ := rk
+    dsimp only
+    split
+    · exact hJ.fn
+    · rename_i best hbest
+      have hA : SimplexJ Q cons ns
+          ({ s with core := { s.core with params := best },
+                    ext := { s.ext with iHighest := iH, iNextHighest := iN, iLowest := iL } } : St F (Simplex ℝ) ℝ) :=
+        ⟨hJ.fn, hJ.verts best (List.mem_of_getElem? hbest), hJ.verts, hJ.psum⟩
+      split
+      · rename_i e he; exact tryExtrapolation_inv' hs he hA
+      · rename_i s1 yT1 he
+        have h1 : SimplexJ Q cons ns s1 := tryExtrapolation_inv' hs he hA
+        split
+        · split
+          · rename_i e he2; exact tryExtrapolation_inv' hs he2 h1
+          · rename_i s2 yT2 he2
+            have h2 : SimplexJ Q cons ns s2 := tryExtrapolation_inv' hs he2 h1
+            exact simplexReport_inv s2 iL h2
+        · split
+          · try dsimp only
+            split
+            · rename_i e he2; exact tryExtrapolation_inv' hs he2 h1
+            · rename_i s2 yT2 he2
+              have h2 : SimplexJ Q cons ns s2 := tryExtrapolation_inv' hs he2 h1
+              split
+              · have h3 := shrinkAll_inv hw (List.range (v0.length + 1)) s2 h2
+                split
+                · rename_i e he3; rw [he3] at h3; exact h3
+                · rename_i s3 he3
+                  rw [he3] at h3
+                  try dsimp only
+                  split
+                  · exact h3.fn
+                  · rename_i ps hps
+                    obtain ⟨f1, f2⟩ := getPSum_free _ _ ps h3.params.2.1 hps
+                    apply simplexReport_inv
+                    exact ⟨h3.fn, h3.params, h3.verts, ⟨f1, by rw [f2]; exact h3.params.2.2⟩⟩
+              · exact simplexReport_inv s2 iL h2
+          · exact simplexReport_inv s1 iL h1
+  · exact hJ.fn
+
+/-- the vertices `1 … nDim` of the initial simplex: copies of the optimiser's list moved by `setValue` -/
+theorem simplexVertices_inv (hs : Safe I Q (Tied cons)) (params : PList ℝ) (hp : Vert cons ns params) :
+    ∀ (l : List Nat) (fn : F) (vs : List (PList ℝ)) (ys : List ℝ), Q fn → (∀ v ∈ vs, Vert cons ns v) →
+      ROk Q (fun r => Q r.1 ∧ ∀ v ∈ r.2.1, Vert cons ns v) (simplexVertices I params l fn vs ys) := by
+  intro l
+  induction l with
+  | nil => intro fn vs ys hQ hv; rw [simplexVertices]; exact ⟨hQ, hv⟩
+  | cons i r ih =>
+    intro fn vs ys hQ hv
+    rw [simplexVertices]
+    try dsimp only
+    split
+    · exact hQ
+    · rename_i w hset
+      have hvw : Vert cons ns w := setAll_vert hp hset
+      split
+      · rename_i e he; obtain ⟨e1, fn1⟩ := e; exact hs.f_err _ _ _ _ hQ hvw.1 he
+      · rename_i fn1 yw he
+        apply ih fn1 _ _ (hs.f_ok _ _ _ _ hQ hvw.1 he)
+        intro v hv'
+        rcases List.mem_append.1 hv' with hm | hm
+        · exact hv v hm
+        · rw [List.mem_singleton] at hm; rw [hm]; exact hvw
+
+theorem simplexDoInit_inv (hs : Safe I Q (Tied cons)) (s : St F (Simplex ℝ) ℝ) (params : PList ℝ)
+    (hQ : Q s.fn) (hp : Vert cons ns s.core.params) : ROk Q (SimplexJ Q cons ns) (simplexDoInit I s params) := by
+  unfold simplexDoInit
+  dsimp only
+  have h1 := simplexVertices_inv hs s.core.params hp ((List.range s.core.params.length).map (· + 1)) s.fn [] [] hQ
+    (fun v hv => nomatch hv)
+  split
+  · rename_i e he; rw [he] at h1; exact h1
+  · rename_i fn1 vs ys he
+    rw [he] at h1
+    split
+    · rename_i e he2; obtain ⟨e1, fn2⟩ := e; exact hs.f_err _ _ _ _ h1.1 hp.1 he2
+    · rename_i fn2 y0 he2
+      have hQ2 := hs.f_ok _ _ _ _ h1.1 hp.1 he2
+      try dsimp only
+      split
+      · exact hQ2
+      · rename_i ps hps
+        obtain ⟨f1, f2⟩ := getPSum_free _ _ ps hp.2.1 hps
+        refine ⟨hQ2, hp, ?_, ⟨f1, by rw [f2]; exact hp.2.2⟩⟩
+        intro v hv
+        rcases List.mem_cons.1 hv with rfl | hm
+        · exact hp
+        · exact h1.2 v hm
+
+theorem simplex_invStep (hs : Safe I Q (Tied cons)) (hw : SafeF I Q (Within cons)) :
+    InvStep (simplexAlgo I) Q (SimplexJ Q cons ns) :=
+  { fn := fun _ h => h.fn,
+    doStep := fun s hJ => simplexDoStep_inv hs hw s hJ,
+    stopInit := fun s hJ => ⟨hJ.fn, hJ.params, hJ.verts, hJ.psum⟩,
+    stop := fun s hJ => hJ,
+    core := fun s c hJ hc _ => ⟨hJ.fn, by show Vert cons ns c.params; rw [hc]; exact hJ.params, hJ.verts, hJ.psum⟩ }
+
+/-- `init` of the simplex method on a list that is tied, of precision 0 and named `ns` once the policy is applied -/
+theorem simplex_init_inv (hs : Safe I Q (Tied cons)) (hw : SafeF I Q (Within cons)) (s : St F (Simplex ℝ) ℝ) (params : PList ℝ)
+    (hQ : Q s.fn) (hp : Vert cons ns (applyPolicy s.core.policy params)) :
+    ROk Q (SimplexJ Q cons ns) ((simplexAlgo I).init s params) :=
+  init_invS (simplex_invStep hs hw) s params (simplexDoInit_inv hs _ params hQ hp)
+
+/-- `DownhillSimplexMethod::optimize`: the template's loop, then an evaluation at the best vertex -/
+theorem simplexOptimize_inv (hs : Safe I Q (Tied cons)) (hw : SafeF I Q (Within cons)) (fuel : Nat) (s : St F (Simplex ℝ) ℝ)
+    (hJ : SimplexJ Q cons ns s) : ROk Q (fun r => SimplexJ Q cons ns r.1) (simplexOptimize I fuel s) := by
+  unfold simplexOptimize
+  have h1 := optimize_invS (simplex_invStep hs hw) fuel s hJ
+  split
+  · rename_i e he; rw [he] at h1; exact h1
+  · rename_i s1 v he
+    rw [he] at h1
+    split
+    · exact h1.fn
+    · rename_i best hb
+      have hvb : Vert cons ns best := h1.verts best (List.mem_of_getElem? hb)
+      split
+      · rename_i e he2; obtain ⟨e1, fn2⟩ := e; exact hs.f_err _ _ _ _ h1.fn hvb.1 he2
+      · rename_i fn2 v2 he2
+        exact ⟨hs.f_ok _ _ _ _ h1.fn hvb.1 he2, h1.params, h1.verts, h1.psum⟩
+
+end
+
+/-- the policy keeps precisions -/
+theorem applyPolicy_prec0 (pol : Policy) (pl : PList ℝ) (h : Prec0 pl) : Prec0 (applyPolicy pol pl) := by
+  intro q hq
+  cases pol with
+  | keep => exact h q hq
+  | ignore =>
+    simp only [applyPolicy, List.mem_map] at hq
+    obtain ⟨q0, hq0, rfl⟩ := hq
+    exact h q0 hq0
+  | auto =>
+    simp only [applyPolicy, List.mem_map] at hq
+    obtain ⟨q0, hq0, rfl⟩ := hq
+    exact h q0 hq0
+
+/-! ### MetaOptimizer -/
+
+section
+variable {I : FunI F ℝ} {Q : F → Prop}
+
+theorem bfgsDoStep_policy (fuel : Nat) (s s' : St F (Bfgs ℝ) ℝ) (v : ℝ)
+    (h : bfgsDoStep I fuel s = .ok (s', v)) : s'.core.policy = s.core.policy := by
+  unfold bfgsDoStep at h
+  dsimp only at h
+  split at h
+  · cases h
+  · split at h
+    · cases h
+    · split at h
+      · split at h
+        · cases h
+        · split at h
+          · cases h
+          · simp only [Except.ok.injEq, Prod.mk.injEq] at h
+            obtain ⟨rfl, rfl⟩ := h
+            rfl
+      · split at h
+        · simp only [Except.ok.injEq, Prod.mk.injEq] at h
+          obtain ⟨rfl, rfl⟩ := h
+          rfl
+        · split at h
+          · cases h
+          · try dsimp only at h
+            split at h
+            · simp only [Except.ok.injEq, Prod.mk.injEq] at h
+              obtain ⟨rfl, rfl⟩ := h
+              rfl
+            · simp only [Except.ok.injEq, Prod.mk.injEq] at h
+              obtain ⟨rfl, rfl⟩ := h
+              rfl
+
+theorem bfgsDoInit_policy (s s' : St F (Bfgs ℝ) ℝ) (params : PList ℝ)
+    (h : bfgsDoInit I s params = .ok s') : s'.core.policy = s.core.policy := by
+  unfold bfgsDoInit at h
+  dsimp only at h
+  split at h
+  · cases h
+  · split at h
+    · cases h
+    · split at h
+      · cases h
+      · split at h
+        · cases h
+        · simp only [Except.ok.injEq] at h; subst h; rfl
+
+theorem bfgs_keepsPolicy (fuel : Nat) : KeepsPolicy (bfgsAlgo I fuel) :=
+  { doInit := fun s p s' h => bfgsDoInit_policy s s' p h,
+    doStep := fun s s' v h => bfgsDoStep_policy fuel s s' v h,
+    stopInit := fun _ => rfl,
+    stop := fun s => fscStop_policy s }
+
+/-- the sub-lists of the `MetaOptimizer` are made of parameters of its own list -/
+theorem metaSubList_tied (cons : Spec.Cons ℝ) (own given : PList ℝ) (ns : List Nat) (h : Tied cons own) :
+    Tied cons (metaSubList own given ns) := by
+  intro q hq
+  unfold metaSubList at hq
+  obtain ⟨n, _, hn⟩ := List.mem_filterMap.1 hq
+  split at hn
+  · exact h q (findNamed_some hn).1
+  · cases hn
+
+/-- the invariant of the `MetaOptimizer`: the function is fine; its list and the two sub-lists are tied;
+the two optimisers it drives run under a policy that keeps constraints (when they have parameters) -/
+def MetaJ (Q : F → Prop) (cons : Spec.Cons ℝ) (s : St F (Meta ℝ) ℝ) : Prop :=
+  Q s.fn ∧ Tied cons s.core.params ∧ Tied cons s.ext.p1 ∧ Tied cons s.ext.p2 ∧
+  (s.ext.p1.length = 0 ∨ s.ext.c1.policy ≠ .ignore) ∧ (s.ext.p2.length = 0 ∨ s.ext.c2.policy ≠ .ignore)
+
+/-- the `SimpleMultiDimensions` of a step: sub-list updated, `init`, one step or a whole `optimize`, copy back -/
+theorem metaRunSimple_inv {cons : Spec.Cons ℝ} (hs : Safe I Q (Tied cons)) (hss : SafeSet I Q (Tied cons)) (fuel : Nat)
+    (s : St F (Meta ℝ) ℝ) (tol : ℝ) (hJ : MetaJ Q cons s) : ROk Q (MetaJ Q cons) (metaRunSimple I fuel s tol) := by
+  unfold metaRunSimple
+  obtain ⟨hQ, hT, hT1, hT2, hc1, hc2⟩ := hJ
+  split
+  · exact ⟨hQ, hT, hT1, hT2, hc1, hc2⟩
+  · rename_i hne
+    have hp : s.ext.c1.policy ≠ .ignore := by
+      rcases hc1 with h0 | h
+      · exact absurd (by simpa using h0) hne
+      · exact h
+    split
+    · exact hQ
+    · rename_i p1 hm
+      have hTp1 : Tied cons p1 := matchList_tied cons _ _ _ hT1 hm
+      dsimp only
+      have hi := simple_init_inv hs hss fuel
+        ({ core := { s.ext.c1 with tolerance := tol }, fn := s.fn, ext := s.ext.e1 } : St F (Simple ℝ) ℝ) p1 hQ
+        (applyPolicy_tied' cons _ _ hp hTp1) hp
+      split
+      · rename_i e he; rw [he] at hi; exact hi
+      · rename_i sub1 he
+        rw [he] at hi
+        have hp1 : sub1.core.policy = s.ext.c1.policy := init_policy (simple_keepsPolicy fuel) _ _ _ he
+        have hrun : ROk Q (fun r => SimpleJ Q cons r.1)
+            (if s.ext.full = true then (simpleAlgo I fuel).optimize fuel sub1 else (simpleAlgo I fuel).step sub1) := by
+          split
+          · exact optimize_invS (simple_invStep hs fuel) fuel sub1 hi
+          · exact step_invS (simple_invStep hs fuel) sub1 hi
+        have hrunp : ∀ r, (if s.ext.full = true then (simpleAlgo I fuel).optimize fuel sub1 else (simpleAlgo I fuel).step sub1) = .ok r →
+            r.1.core.policy = sub1.core.policy := by
+          intro r hr
+          split at hr
+          · exact optimize_policy (simple_keepsPolicy fuel) fuel _ _ _ hr
+          · exact step_policy (simple_keepsPolicy fuel) _ _ _ hr
+        generalize (if s.ext.full = true then (simpleAlgo I fuel).optimize fuel sub1 else (simpleAlgo I fuel).step sub1) = run
+          at hrun hrunp
+        cases run with
+        | error e => exact hrun
+        | ok r =>
+          obtain ⟨sub2, v⟩ := r
+          have hp2 := hrunp _ rfl
+          dsimp only
+          split
+          · exact hrun.1
+          · rename_i own hm2
+            exact ⟨hrun.1, matchList_tied cons _ _ _ hT hm2, hTp1, hT2,
+              Or.inr (by show sub2.core.policy ≠ _; rw [hp2, hp1]; exact hp), hc2⟩
+
+/-- the same for the `BfgsMultiDimensions` (whose `doInit` sets the function to the sub-list itself) -/
+theorem metaRunBfgs_inv {cons : Spec.Cons ℝ} (hs : Safe I Q (Tied cons)) (hss : SafeSet I Q (Tied cons)) (fuel : Nat)
+    (s : St F (Meta ℝ) ℝ) (tol : ℝ) (hJ : MetaJ Q cons s) : ROk Q (MetaJ Q cons) (metaRunBfgs I fuel s tol) := by
+  unfold metaRunBfgs
+  obtain ⟨hQ, hT, hT1, hT2, hc1, hc2⟩ := hJ
+  split
+  · exact ⟨hQ, hT, hT1, hT2, hc1, hc2⟩
+  · rename_i hne
+    have hp : s.ext.c2.policy ≠ .ignore := by
+      rcases hc2 with h0 | h
+      · exact absurd (by simpa using h0) hne
+      · exact h
+    split
+    · exact hQ
+    · rename_i p2 hm
+      have hTp2 : Tied cons p2 := matchList_tied cons _ _ _ hT2 hm
+      dsimp only
+      have hstep := bfgs_safeStep hs hss fuel
+      have hi := init_safeS hstep
+        ({ core := { s.ext.c2 with tolerance := tol }, fn := s.fn, ext := s.ext.e2 } : St F (Bfgs ℝ) ℝ) p2
+        (bfgsDoInit_safe hss _ p2 hQ (applyPolicy_tied' cons _ _ hp hTp2) hTp2)
+      split
+      · rename_i e he; rw [he] at hi; exact hi
+      · rename_i sub1 he
+        rw [he] at hi
+        have hp1 : sub1.core.policy = s.ext.c2.policy := init_policy (bfgs_keepsPolicy fuel) _ _ _ he
+        have hrun : ROk Q (fun r => Q r.1.fn ∧ Tied cons r.1.core.params)
+            (if s.ext.full = true then (bfgsAlgo I fuel).optimize fuel sub1 else (bfgsAlgo I fuel).step sub1) := by
+          split
+          · exact optimize_safeS hstep fuel sub1 hi.1 hi.2
+          · exact step_safeS hstep sub1 hi.1 hi.2
+        have hrunp : ∀ r, (if s.ext.full = true then (bfgsAlgo I fuel).optimize fuel sub1 else (bfgsAlgo I fuel).step sub1) = .ok r →
+            r.1.core.policy = sub1.core.policy := by
+          intro r hr
+          split at hr
+          · exact optimize_policy (bfgs_keepsPolicy fuel) fuel _ _ _ hr
+          · exact step_policy (bfgs_keepsPolicy fuel) _ _ _ hr
+        generalize (if s.ext.full = true then (bfgsAlgo I fuel).optimize fuel sub1 else (bfgsAlgo I fuel).step sub1) = run
+          at hrun hrunp
+        cases run with
+        | error e => exact hrun
+        | ok r =>
+          obtain ⟨sub2, v⟩ := r
+          have hp2 := hrunp _ rfl
+          dsimp only
+          split
+          · exact hrun.1
+          · rename_i own hm2
+            exact ⟨hrun.1, matchList_tied cons _ _ _ hT hm2, hT1, hTp2, hc1,
+              Or.inr (by show sub2.core.policy ≠ _; rw [hp2, hp1]; exact hp)⟩
+
+theorem metaRunSimple_inv' {cons : Spec.Cons ℝ} (hs : Safe I Q (Tied cons)) (hss : SafeSet I Q (Tied cons)) {fuel : Nat}
+    {s : St F (Meta ℝ) ℝ} {tol : ℝ} {r : Except (Exc × F) (St F (Meta ℝ) ℝ)} (he : metaRunSimple I fuel s tol = r)
+    (hJ : MetaJ Q cons s) : ROk Q (MetaJ Q cons) r :=
+  he ▸ metaRunSimple_inv hs hss fuel s tol hJ
+
+theorem metaRunBfgs_inv' {cons : Spec.Cons ℝ} (hs : Safe I Q (Tied cons)) (hss : SafeSet I Q (Tied cons)) {fuel : Nat}
+    {s : St F (Meta ℝ) ℝ} {tol : ℝ} {r : Except (Exc × F) (St F (Meta ℝ) ℝ)} (he : metaRunBfgs I fuel s tol = r)
+    (hJ : MetaJ Q cons s) : ROk Q (MetaJ Q cons) r :=
+  he ▸ metaRunBfgs_inv hs hss fuel s tol hJ
+
+theorem metaDoStep_inv {cons : Spec.Cons ℝ} (hs : Safe I Q (Tied cons)) (hss : SafeSet I Q (Tied cons)) (fuel : Nat)
+    (s : St F (Meta ℝ) ℝ) (hJ : MetaJ Q cons s) : ROk Q (fun r => MetaJ Q cons r.1) (metaDoStep I fuel s) := by
+  unfold metaDoStep
+  dsimp only
+  have h0 : MetaJ Q cons ({ s with ext := { s.ext with stepCount := s.ext.stepCount + 1 } } : St F (Meta ℝ) ℝ) := hJ
+  split
+  · rename_i e he
+    exact metaRunSimple_inv' hs hss he h0
+  · rename_i s1 he
+    have h1 : MetaJ Q cons s1 := metaRunSimple_inv' hs hss he h0
+    split
+    · rename_i e he2
+      exact metaRunBfgs_inv' hs hss he2 h1
+    · rename_i s2 he2
+      have h2 : MetaJ Q cons s2 := metaRunBfgs_inv' hs hss he2 h1
+      exact h2
+
+theorem metaDoInit_inv {cons : Spec.Cons ℝ} (hss : SafeSet I Q (Tied cons)) (log10 : ℝ → ℝ) (s : St F (Meta ℝ) ℝ)
+    (params : PList ℝ) (hQ : Q s.fn) (hT : Tied cons s.core.params) (hp : s.core.policy ≠ .ignore) :
+    ROk Q (MetaJ Q cons) (metaDoInit I log10 s params) := by
+  unfold metaDoInit
+  dsimp only
+  split
+  · exact hQ
+  · rename_i own hm
+    have hTo : Tied cons own := matchList_tied cons _ _ _ hT hm
+    split
+    · rename_i e he; obtain ⟨e1, fn1⟩ := e; exact hss.set_err _ _ _ _ hQ hTo he
+    · rename_i fn1 he
+      refine ⟨hss.set_ok _ _ _ hQ hTo he, hTo, metaSubList_tied cons _ _ _ hT, metaSubList_tied cons _ _ _ hT, ?_, ?_⟩
+      · dsimp only
+        split
+        · exact Or.inr hp
+        · rename_i hz; exact Or.inl (by omega)
+      · dsimp only
+        split
+        · exact Or.inr hp
+        · rename_i hz; exact Or.inl (by omega)
+
+theorem meta_invStep {cons : Spec.Cons ℝ} (hs : Safe I Q (Tied cons)) (hss : SafeSet I Q (Tied cons)) (log10 : ℝ → ℝ) (fuel : Nat) :
+    InvStep (metaAlgo I log10 fuel) Q (MetaJ Q cons) :=
+  { fn := fun _ h => h.1,
+    doStep := fun s hJ => metaDoStep_inv hs hss fuel s hJ,
+    stopInit := fun s hJ => hJ,
+    stop := fun s hJ => by
+      have := fscStop_same s
+      show MetaJ Q cons (fscStop s).1
+      unfold MetaJ
+      rw [this.1, this.2.1, this.2.2.2.1]; exact hJ,
+    core := fun s c hJ hc _ => ⟨hJ.1, by show Tied cons c.params; rw [hc]; exact hJ.2.1, hJ.2.2⟩ }
+
+/-- `init` of the `MetaOptimizer` on a tied list under a policy that keeps constraints -/
+theorem meta_init_inv {cons : Spec.Cons ℝ} (hs : Safe I Q (Tied cons)) (hss : SafeSet I Q (Tied cons)) (log10 : ℝ → ℝ)
+    (fuel : Nat) (s : St F (Meta ℝ) ℝ) (params : PList ℝ) (hQ : Q s.fn)
+    (hT : Tied cons (applyPolicy s.core.policy params)) (hp : s.core.policy ≠ .ignore) :
+    ROk Q (MetaJ Q cons) ((metaAlgo I log10 fuel).init s params) :=
+  init_invS (meta_invStep hs hss log10 fuel) s params (metaDoInit_inv hss log10 _ params hQ hT hp)
+
+end
+
+/-! ### from `FeasL` back to the predicates of the clause -/
+
+/-- a result that is fine for `FeasL` is fine for `FeasFn` -/
+theorem rok_final {β : Type} {cons : Spec.Cons ℝ} {L : Nat} {P : β → Prop} {P' : β → Prop}
+    {r : Except (Exc × Fn ℝ) β} (h : ROk (FeasL cons L) P r) (hP : ∀ b, P b → P' b) : ROk (FeasFn cons) P' r := by
+  cases r with
+  | error e => exact h.1
+  | ok b => exact hP b h
+
+/-! ### why the simplex theorem asks for precision 0: a run in exact rational arithmetic
+
+One parameter, value `1/10`, precision `6/25`, constraint `[-7/100, 1/4]`, automatic policy.  `init`
+builds the vertices `1/10` and `1/4` (`1/10 + 1/5` corrected to the bound) and the sum `7/20`.
+Step 1: the reflection `-1/20` replaces `1/4`, the sum becomes `1/20`; the expansion, corrected to
+`-7/100`, is better still, but `-7/100` is within `precision/2 = 3/25` of what the vertex and the sum
+hold: both `setValue`s are ignored.  Step 2: the reflection replaces `1/10` by `-1/20`, the sum becomes
+`1/20 + (-1/20) - 1/10 = -1/10` (no constraint: stored); the contraction does not improve, the simplex is
+contracted around its lowest vertex: the sums are told to take the midpoint `-1/20`, which is within
+`3/25` of `-1/10`: ignored — and the function is evaluated at `-1/10 < -7/100`. -/
+namespace SimplexCex
+
+def c : Interval Rat := ⟨.fin (-7/100), .fin (1/4), true, true, 0⟩
+def params : PList Rat := [⟨0, ⟨1/10, 6/25, some c, false⟩⟩]
+/-- the objective: a table on the points the run visits -/
+def obj (x : List Rat) : Rat :=
+  match x with
+  | [v] => if v = 1/4 then 817/100 else if v = 1/10 then 202/25 else if v = -1/20 then 174/25 else if v = -7/100 then 28/25 else 0
+  | _ => 0
+/-- a freshly constructed `DownhillSimplexMethod` under the automatic policy, the function at `(1/10)` -/
+def s0 : St (Fn Rat) (Simplex Rat) Rat :=
+  ⟨{ params := [], policy := .auto, nbEvalMax := 5, nbEval := 0, cur := 0, tol := false, initialized := false,
+     tolerance := 0, callCount := 0, burnin := 0, lastF := 0, newF := 0 }, ⟨[1/10], []⟩, Simplex.fresh⟩
+def I : FunI (Fn Rat) Rat := Fn.iface obj ⟨fun _ _ => 0, fun _ _ => 0⟩ none
+def cons : Spec.Cons Rat := params.map (fun q => (q.name, q.p.constraint))
+/-- the log of the function after `init` and `optimize` (however they end) -/
+def log : List (List Rat) :=
+  match (simplexAlgo I).init s0 params with
+  | .error e => e.2.log
+  | .ok s1 =>
+    match simplexOptimize I 10 s1 with
+    | .error e => e.2.log
+    | .ok r => r.1.fn.log
+
+end SimplexCex
 
 end Bpp.Optim
